@@ -359,7 +359,7 @@ Definition al (x : N) : Prop := exists c, x = 32768 * c.
 Definition Dd (s : lst) : N := offset s + (oend s - optr s).        (* bytes decoded so far: written + still waiting in the window *)
 Definition Geo (s : lst) : Prop := wposn s = fposn s /\ al (wsize s) /\ wsize s < 4294967296 /\ 32768 <= wsize s /\ optr s <= oend s.
 Definition NormalM (s : lst) : Prop := al (fposn s) /\ fposn s + 32768 <= wsize s /\ Dd s = frame s * 32768 /\ (L <> 0 -> Dd s <= L).
-Definition TailM (s : lst) : Prop := L <> 0 /\ Dd s = L /\ fposn s <= wsize s.
+Definition TailM (s : lst) : Prop := L <> 0 /\ Dd s = L /\ fposn s <= wsize s /\ L <= frame s * 32768.
 Definition Core (s : lst) : Prop := Geo s /\ (NormalM s \/ TailM s).
 Definition LIp (s : lst) (ob ef : N) : Prop :=
   Geo s /\ optr s = oend s /\ 1 <= ef /\ (ef - 1) * 32768 < offset s + ob /\ offset s + ob <= ef * 32768 /\ ef * 32768 < 140737488355328 /\ (NormalM s \/ TailM s).
@@ -374,7 +374,7 @@ Lemma fs_facts s ob ef : LIp s ob ef -> frame s < ef ->
 Proof.
   intros (G & Ho & E1 & E2 & E3 & E4 & M) Hf. unfold fsz. change FRAME_SIZE with 32768.
   assert (HD : Dd s = offset s) by (unfold Dd; lia).
-  destruct M as [(A1 & A2 & A3 & A4)|(T1 & T2 & T3)].
+  destruct M as [(A1 & A2 & A3 & A4)|(T1 & T2 & T3 & T4)].
   - rewrite HD in A3, A4. destruct (N.eqb_spec L 0) as [HL|HL]; cbn [negb andb].
     + split; [lia|]. split; [lia|]. left. split; [unfold NormalM; rewrite HD; auto|]. split; [reflexivity|]. intro; contradiction.
     + specialize (A4 HL). destruct (Z.ltb_spec (Z.of_N L - Z.of_N (offset s)) 32768) as [Hl|Hl].
@@ -436,15 +436,15 @@ Proof.
   - (* the short last frame *)
     destruct N0 as ((cf & A1) & A2 & A3 & A4). rewrite HD in A3, A4.
     assert (TY : TailM (WRAP x)).
-    { unfold TailM. rewrite DY. split; [exact HLn|]. split; [lia|]. rewrite W1, X1. exact (proj1 FY). }
+    { unfold TailM. rewrite DY, W3, X5. split; [exact HLn|]. split; [lia|]. split; [rewrite W1, X1; exact (proj1 FY)|lia]. }
     split; [|rewrite DY; lia].
     destruct (N.eq_dec i fs) as [Ei|Ei].
     + right. rewrite W4, W5, X6, X7, W2, X4. split; [exact GY|]. split; [lia|]. repeat split; try lia. right. exact TY.
     + left. rewrite W3, X5. split; [lia|]. split; [exact GY|]. right. exact TY.
   - (* past the end *)
-    destruct T0 as (T1 & T2 & T3). rewrite HD in T2.
+    destruct T0 as (T1 & T2 & T3 & T4). rewrite HD in T2.
     assert (TY : TailM (WRAP x)).
-    { unfold TailM. rewrite DY. split; [exact T1|]. split; [lia|]. rewrite W1, X1. exact (proj1 FY). }
+    { unfold TailM. rewrite DY, W3, X5. split; [exact T1|]. split; [lia|]. split; [rewrite W1, X1; exact (proj1 FY)|lia]. }
     split; [|rewrite DY; lia].
     right. rewrite W4, W5, X6, X7, W2, X4. split; [exact GY|]. split; [lia|]. repeat split; try lia. right. exact TY.
 Qed.
@@ -554,7 +554,7 @@ Proof.
   assert (D1 : Dd s1 = Dd s) by (unfold Dd; rewrite S6, S7, S8; lia).
   assert (C1 : Core s1).
   { split; [unfold Geo; rewrite S1, S2, S3, S6, S8; repeat split; try assumption; lia|].
-    destruct M as [(A1 & A2 & A3 & A4)|(T1 & T2 & T3)]; [left; unfold NormalM|right; unfold TailM]; rewrite D1, S2, S3, ?S4; repeat split; assumption. }
+    destruct M as [(A1 & A2 & A3 & A4)|(T1 & T2 & T3 & T4)]; [left; unfold NormalM|right; unfold TailM]; rewrite D1, S2, S3, ?S4; repeat split; assumption. }
   eapply (hs_bnd (fun _ s' => s' = s1)).
   { unfold s1. destruct (0 <? i); [apply hs_write_bnd; apply hs_modify; reflexivity|apply hs_ret; reflexivity]. }
   intros u s1' ->. clearbody s1.
